@@ -374,7 +374,7 @@ Section Count.
     Hypothesis FL2 : forall i j f g, nth_error fs i = Some f -> nth_error fs j = Some g ->
                                      fi_flatten f = true -> fi_flatten g = true -> i = j.
     Hypothesis SK : forall f, In f fs -> fi_skip f = true -> fi_default f <> None.
-    Hypothesis FS : forall f t, In (f, t) fields -> fi_flatten f = true -> exists c' fs', t = TStructR c' fs'.
+    Hypothesis FS : forall f t, In (f, t) fields -> fi_flatten f = true -> flat_target t = true.
 
     Lemma extract_panic_loc i f it loc loc' : is_panic (extract i f it loc) = is_panic (extract i f it loc').
     Proof. unfold Recv.extract. destruct (apply_post _ _ _); reflexivity. Qed.
@@ -649,15 +649,15 @@ Section Count.
           + (* the flatten member *)
             assert (f = g /\ t = gt) by (split; congruence). destruct H as [-> ->].
             destruct (FL1 g (nth_error_In _ _ Ng) Fg) as [Skg Mug].
-            destruct (FS g gt (nth_error_In _ _ Hg) Fg) as [c' [fs' ->]].
+            pose proof (FS g gt (nth_error_In _ _ Hg) Fg) as FT.
             assert (Ad : addressable g = false) by (unfold addressable; now rewrite Fg, Skg).
             unfold occcost. rewrite (occ_unaddr i g items Ng Ad). unfold here_mistakes. rewrite Skg, Fg.
             assert (HF : has_flatten fields = true) by (unfold has_flatten; apply existsb_exists; exists g; split; [eapply nth_error_In; exact Ng|exact Fg]).
             destruct (loop_is_spec sugg sim interp_with interp_fn fields convs auk items st1 L) as [_ [_ Fl]].
             rewrite Fl, (spec_flat_unclaimed HF) in SH.
             pose proof (IHk_nth i g _ Hg (dummy_list unclaimed) eq_refl) as K. unfold dummy_list in K.
-            rewrite from_meta_list in K by reflexivity. fold (dummy_list unclaimed) in K.
-            destruct (from_list (impl (TStructR c' fs')) unclaimed) as [v|e|m]; cbn [map_err] in K; [| |destruct SH].
+            rewrite from_meta_list in K by (now apply flat_target_meta). fold (dummy_list unclaimed) in K.
+            destruct (from_list (impl gt) unclaimed) as [v|e|m]; cbn [map_err] in K; [| |destruct SH].
             * subst stf. cbn [ps_errs ps_slots]. rewrite nth_set_slot_same by exact Li. rewrite K, N.sub_diag.
               unfold check_one. destruct (needs_check g), (fi_multiple g); cbn; reflexivity.
             * destruct SH as [e' [Le ->]]. cbn [ps_errs ps_slots]. rewrite nth_set_slot_same by exact Li.
@@ -737,9 +737,9 @@ Section Count.
           destruct SH as [g [gt [Hg [Fg SH]]]].
           destruct (from_list (impl gt) (ps_flat st1)) as [v|e|m] eqn:R; [now subst stf| |destruct SH].
           destruct SH as [e' [Le ->]]. cbn [ps_errs]. apply Forall_app. split; [exact P1|]. constructor; [|constructor]. rewrite Le.
-          destruct (FS g gt (nth_error_In _ _ Hg) Fg) as [c' [fs' ->]].
+          pose proof (FS g gt (nth_error_In _ _ Hg) Fg) as FT.
           pose proof (IHk_nth i g _ Hg (dummy_list (ps_flat st1)) eq_refl) as K. unfold dummy_list in K.
-          rewrite from_meta_list in K by reflexivity. rewrite R in K. cbn [map_err] in K. rewrite len_with_span in K. apply K.
+          rewrite from_meta_list in K by (now apply flat_target_meta). rewrite R in K. cbn [map_err] in K. rewrite len_with_span in K. apply K.
         - apply check_all_pos.
       Qed.
     End Run.
@@ -1026,7 +1026,7 @@ End Count.
 Definition level_cwfb (fields : list (finfo * ty)) : bool :=
   level_wfb fields
   && forallb (fun f => negb (fi_skip f) || match fi_default f with Some _ => true | None => false end) (finfos fields)
-  && forallb (fun ft : finfo * ty => negb (fi_flatten (fst ft)) || match snd ft with TStructR _ _ => true | _ => false end) fields.
+  && forallb (fun ft : finfo * ty => negb (fi_flatten (fst ft)) || flat_target (snd ft)) fields.
 
 Lemma level_cwfb_sound fields : level_cwfb fields = true -> level_cwf fields.
 Proof.
@@ -1034,7 +1034,7 @@ Proof.
   split; [now apply level_wfb_sound|]. split.
   - intros f Hin Sk. rewrite forallb_forall in H2. specialize (H2 f Hin). rewrite Sk in H2. cbn in H2. destruct (fi_default f); [discriminate|discriminate].
   - intros f t Hin Fl. rewrite forallb_forall in H3. specialize (H3 (f, t) Hin). cbn [fst snd] in H3. rewrite Fl in H3. cbn in H3.
-    destruct t; try discriminate. eauto.
+    exact H3.
 Qed.
 
 Fixpoint cwfb (t : ty) : bool :=
